@@ -86,6 +86,17 @@ NEEDS.update({
  "g18": "input: GET /v1/ip with an unknown sort value and >= 2 matching IPs (nil comparator)",
  "g19": "interleaving: configuration reload with changed content concurrent with a node-subnet cache miss in filter/bind",
 })
+
+NEEDS.update({
+ "h01": "input: a pod key that is a string prefix of another live pod's key (ReserveIP matches by prefix)",
+ "h03": "fault: the replica lookup of a scalable custom-resource app fails (not NotFound) when an immutable pod is retired",
+ "h05": "crash: the process stops between the two writes every allocation now needs (bare object created, not yet filled)",
+ "h07": "multi-step: pool filled, size lowered below the number of IPs in use, one more pod filtered",
+ "h09": "interleaving: an allocation or release arrives while ConfigurePool's list request is in flight (read lock, then write lock)",
+ "h12": "fault: two plugin DELs fail in one DEL, then the retry (order) - same effect as e12, different edit",
+ "h14": "multi-step: a random-port pod is set up a second time without a teardown in between",
+ "h17": "state: dead container whose port file is corrupt (port clean-up keeps failing, state files never removed)",
+})
 OTHER = {'b02': ['C03', 'C05'], 'a04': ['C10'], 'd02': ['C06'], 'd09': ['C05', 'C06'], 'e06': ['C08', 'C05'], 'e01': ['C09', 'C05'], 'e10': ['C04'], 'e04': ['C01'], 'f13': ['C12'], 'd01': ['C04'], 'g02b': ['C06'], 'g10': ['C04'], 'g19': ['C06'], 'f16a': ['C15'], 'f15b': ['C16']}
 only = sys.argv[1:]
 for sid, (prop, pkg) in SEEDS.items():
